@@ -136,8 +136,9 @@ var props = []propCfg{
 		Tests: []testCfg{
 			{Name: "TestMatchExhaustive", ShardsQ: 16, ShardsT: 16},
 			{Name: "TestMatchContexts", Rapid: true, Quick: 3200, Thorough: 64000, ShardsQ: 16, ShardsT: 16},
+			{Name: "TestMatchSequences", Rapid: true, Quick: 3200, Thorough: 64000, ShardsQ: 16, ShardsT: 16},
 		},
-		Rule:      "exhaustive part: unions with n = 1..4 cases x payload mask (2^n) x every non-empty ordered subset of arms x arm form per arm (payload case: bind-and-use / `_` / no pattern; no-payload case: bare) x with/without trailing default = 21,576 candidates on every run; n = 5 with fixed arm forms sampled 1-in-7 in quick and all 405,120 candidates in thorough. Expected-reject candidates cost one fc run each (sentinel gen file in place beforehand); expected-accept candidates share files of up to 60 functions and are re-decided alone on any surprise. Sampled part (rapid): the match placed in a let right-hand side, either if branch, a first/last arm of an outer match, a lambda with annotated parameter, a local function, on a let-bound value; over plain, generic, and-group and other-file union declarations. Oracle: reject <=> (no default and a case missing); reject = non-zero exit, every KaseN named in the diagnostic is really uncovered (and at least one is named), sentinel gen file untouched; accept = exit 0, gen file written, the emitted type switch lists exactly the source arms in order plus the user default or the never-reached panic. Non-trivial = >= 2 arms not in declaration order, or a missing case that is not the last declared one; distinct = hash of the candidate.",
+		Rule:      "exhaustive part: unions with n = 1..4 cases x payload mask (2^n) x every non-empty ordered subset of arms x arm form per arm (payload case: bind-and-use / `_` / no pattern; no-payload case: bare) x with/without trailing default = 21,576 candidates on every run; n = 5 with fixed arm forms sampled 1-in-7 in quick and all 405,120 candidates in thorough. Expected-reject candidates cost one fc run each (sentinel gen file in place beforehand); expected-accept candidates share files of up to 60 functions and are re-decided alone on any surprise. Sampled part (rapid): the match placed in a let right-hand side, either if branch, a first/last arm of an outer match, a lambda with annotated parameter, a local function, on a let-bound value; over plain, generic, and-group and other-file union declarations. Sequences (rapid): 2..4 matches on the SAME union in one file (each in its own function and context, usually accepted ones first, the last one optionally nested in an arm of an exhaustive match on the same union): the file is rejected iff some match must be, and the diagnostic names a case the first offending match leaves uncovered - the decision for a match must not depend on the matches processed before it. Oracle: reject <=> (no default and a case missing); reject = non-zero exit, every KaseN named in the diagnostic is really uncovered (and at least one is named), sentinel gen file untouched; accept = exit 0, gen file written, the emitted type switch lists exactly the source arms in order plus the user default or the never-reached panic. Non-trivial = >= 2 arms not in declaration order, or a missing case that is not the last declared one; distinct = hash of the candidate.",
 		Technique: "exhaustive enumeration of the bounded domain + property-based testing (rapid) for nesting contexts, against the property's own biconditional as oracle",
 		Assumptions: []string{
 			"the matched value has a declared union type where the match is written (annotated parameter / let-bound from one), as section 3 of DESIGN.md derives from the documents",
